@@ -94,6 +94,27 @@ def st_request(cfgspec, knobs, base_dir, plan, record, extra=None):
     return out
 
 
+def st_request_seq(cfgspecs, knobs, base_dir):
+    "several fault-free requests in ONE process lifetime (no restart in between): in-process state carries over"
+    from maze_dataset import MazeDataset
+
+    flags = dict(knobs.get("request") or {})
+    _knobs(knobs)
+    outs = []
+    dk = sdisk.SimDisk(None)
+    with sdisk.Installed(dk, _clock(knobs)), smem.Installed(knobs.get("mem", 0)):
+        for cs in cfgspecs:
+            bd = base_dir
+            if isinstance(cs, list):  # [cfgspec, directory]
+                cs, bd = cs
+            cfg = _ds.make_cfg(cs)
+            out = _ds.outcome_of(lambda: MazeDataset.from_config(cfg, local_base_path=bd, zanj=_zanj(knobs), **flags))
+            out["files"] = sorted(os.listdir(bd)) if os.path.isdir(bd) else None
+            outs.append(out)
+        dk.finalize()
+    return outs
+
+
 def st_readback(path):
     from maze_dataset import MazeDataset
 
@@ -371,8 +392,14 @@ def run_shared_dir(base: Base, sc, d, log, stats):
     cfgs = {"R": base.cfg, "S": S}
     os.makedirs(d)
     seen = set()
-    for who in ("R", "S", "R", "S"):
-        out = core.stage(st_request, cfgs[who], base.knobs, d, None, False)
+    order = ("R", "S", "R", "S")
+    same_process = bool(sc.get("same_process"))
+    if same_process:
+        # all four requests inside one process lifetime: whatever the library keeps in memory between requests is in play
+        outs = core.stage(st_request_seq, [cfgs[w] for w in order], base.knobs, d)
+        stats["shared_dir_same_process"] = 1
+    for qi, who in enumerate(order):
+        out = outs[qi] if same_process else core.stage(st_request, cfgs[who], base.knobs, d, None, False)
         log.add("request", who, out["kind"], out.get("exc"))
         what = f"[shared-dir:{sc.get('field')}] request for configuration {who} ({'first' if who not in seen else 'repeated'})"
         if out["kind"] == "returned":
@@ -446,7 +473,17 @@ def run_history(base: Base, sc, d, log, stats):
             continue
         F = cur()
         plan = arg
-        if op == "request-noload":
+        if op == "request-warm":
+            # the judged request runs in a process that has already served the same configuration from another directory
+            # (warm in-process state: anything memoised per configuration must not stand in for this directory's file)
+            plan = None
+            wd = d + "-warm"
+            outs = core.stage(st_request_seq, [[base.cfg, wd], [base.cfg, d]], base.knobs, d)
+            shutil.rmtree(wd, ignore_errors=True)
+            out = outs[1]
+            out.setdefault("fired", {})
+            stats["hist_request_warm"] = stats.get("hist_request_warm", 0) + 1
+        elif op == "request-noload":
             # the caller forces regeneration (load_local=False): whatever lies under the name is irrelevant, the request must
             # return fresh data and replace the file by a loadable one - judged exactly like a request that finds no file
             plan = None
@@ -706,7 +743,7 @@ def scenarios_for(rng: random.Random, R: dict, layout: dict, tier: str) -> list:
     fv = foreign_variants(rng, R)
     sc += fv
     # the same one-field neighbours, but as *independent users of the same cache directory*
-    sc += [{"kind": "shared-dir", "field": x["field"], "cfg": x["cfg"]} for x in fv if x["kind"] == "foreign"]
+    sc += [{"kind": "shared-dir", "field": x["field"], "cfg": x["cfg"], "same_process": rng.random() < 0.5} for x in fv if x["kind"] == "foreign"]
     # multi-fault histories
     for _ in range(7 if tier == "quick" else 60):
         steps = []
@@ -726,8 +763,10 @@ def scenarios_for(rng: random.Random, R: dict, layout: dict, tier: str) -> list:
                 steps.append(["request", plan])
             elif r < 0.8:
                 steps.append(["damage", rng.choice([{"kind": "trunc", "at": rng.randrange(size)}, {"kind": "flip", "at": rng.randrange(size), "mask": rng.choice([1, 0x80, 0xFF])}, {"kind": "delete"}])])
-            elif r < 0.93:
+            elif r < 0.88:
                 steps.append(["request", None])
+            elif r < 0.94:
+                steps.append(["request-warm", None])
             else:
                 steps.append(["request-noload", None])
         sc.append({"kind": "history", "steps": steps})
